@@ -760,6 +760,9 @@ func isRefineApplyCond(info *types.Info, e ast.Expr) bool {
 	switch x := e.(type) {
 	case *ast.BinaryExpr:
 		switch x.Op {
+		case token.LAND:
+			// the nil test and the known-or-typed test written as one condition
+			return isRefineApplyCond(info, x.X) && isRefineApplyCond(info, x.Y)
 		case token.LOR:
 			return isRefineApplyCond(info, x.X) && isRefineApplyCond(info, x.Y) && (containsIsKnown(info, x) && containsTypeNotDynamic(info, x))
 		case token.NEQ:
@@ -901,6 +904,56 @@ func runCallMarks(rr *RuleRun) {
 				}
 				return true
 			})
+			if !stored {
+				// the replacement may be delegated to a helper of the same package: args = helper(args, i, unw),
+				// where the helper stores that parameter into an element of a []cty.Value it returns
+				installFindFuncDecl(c)
+				inspectNoLit(l.loop.Body, func(n ast.Node) bool {
+					as, ok := n.(*ast.AssignStmt)
+					if !ok || len(as.Rhs) != 1 || len(as.Lhs) != 1 {
+						return true
+					}
+					cl, ok := as.Rhs[0].(*ast.CallExpr)
+					if !ok {
+						return true
+					}
+					f := callee(info, cl)
+					if f == nil || f.Pkg() == nil || shortPkg(f.Pkg()) != "cty/function" {
+						return true
+					}
+					lt, ok := info.TypeOf(as.Lhs[0]).Underlying().(*types.Slice)
+					if !ok || !isCtyValue(lt.Elem()) {
+						return true
+					}
+					cd := findFuncDecl(f)
+					if cd == nil || cd.Body == nil {
+						return true
+					}
+					for ai, a := range cl.Args {
+						if objOf(info, a) != unw {
+							continue
+						}
+						pid := paramIdent(cd, ai)
+						if pid == nil {
+							continue
+						}
+						po := info.Defs[pid]
+						ast.Inspect(cd.Body, func(m ast.Node) bool {
+							if a2, ok := m.(*ast.AssignStmt); ok {
+								for i, lh := range a2.Lhs {
+									if ix, ok := lh.(*ast.IndexExpr); ok && i < len(a2.Rhs) && objOf(info, a2.Rhs[i]) == po {
+										if t, ok := info.TypeOf(ix.X).Underlying().(*types.Slice); ok && isCtyValue(t.Elem()) {
+											stored = true
+										}
+									}
+								}
+							}
+							return true
+						})
+					}
+					return true
+				})
+			}
 			if !stored {
 				rr.Violation(key+"/store", dc.Pos(), "the deep-unmarked value never replaces the argument: the callback still sees marks")
 				continue
